@@ -5,7 +5,7 @@ CONSTANT Ids = {"a", "b", "c"}
 CONSTANT MaxEv = 1000
 CONSTANT MaxIn = 1000
 CONSTANT MaxQ = 1000
-CONSTANT Dev = {"DevDupIdReplaces", "DevUnauth1011", "DevInvalid1002"}
+CONSTANT Dev = {"DevUnauth1011"}
 INIT DInit
 NEXT DNext
 CONSTRAINT Track
